@@ -109,5 +109,9 @@ func parseFilter(line string) (*filterRule, error) {
 
 	rule.pattern = line
 
+	if strings.ContainsAny(rule.pattern, "*[?") {
+		return nil, fmt.Errorf("filter rule %q: wildcard filter rules not yet implemented", line)
+	}
+
 	return rule, nil
 }
